@@ -966,60 +966,47 @@ func (x *vtx) c18r3() {
 		bad = e2
 	}
 	if bad == "" {
-		// the three bytes: data[o], data[o+1], data[o+2]
+		// the three bytes: data[o], data[o+1], data[o+2], where in iteration T of the
+		// column loop o = (y-1+viewportY)*viewportWidth*3 + 3*T (however the offset
+		// is carried: a counter, or a sub-slice that is advanced)
+		lf, inLoop := g.loopFormAt(z, g.Ins[wn].Block())
+		if !inLoop || lf.Header != xPhi.Block() {
+			bad = "the cells are not read in the loop that advances the column"
+		}
 		offs := []Poly{}
-		for i := 0; i < 3; i++ {
+		for i := 0; i < 3 && bad == ""; i++ {
 			ld, ok := a[i].(*ssa.UnOp)
 			if !ok || ld.Op != token.MUL {
 				bad = "redraw does not read the cell from the buffer"
 				break
 			}
 			ia, ok := ld.X.(*ssa.IndexAddr)
-			if !ok || !isLoadOfField(ia.X, x.data) {
+			if !ok {
 				bad = "redraw does not read the cell from VT.data"
 				break
 			}
-			offs = append(offs, z.Of(ia.Index))
+			base, idx := sliceElem(z, lf, ia.X, z.Of(ia.Index))
+			if !isLoadOfField(base, x.data) {
+				bad = "redraw does not read the cell from VT.data"
+				break
+			}
+			offs = append(offs, idx)
 		}
 		if bad == "" {
 			base := offs[0]
 			if !offs[1].equal(base.add(polyConst(1), 1)) || !offs[2].equal(base.add(polyConst(2), 1)) {
 				bad = "the redraw does not pass (data[o], data[o+1], data[o+2])"
 			}
-			// base must be the offset phi: [init, phi+3]
-			name, ok := base.singleAtom()
-			var oPhi *ssa.Phi
-			if ok {
-				for _, in := range g.Ins {
-					if p, ok := in.(*ssa.Phi); ok && z.defaultAtom(p) == name {
-						oPhi = p
-					}
-				}
-			}
-			if bad == "" && oPhi == nil {
-				bad = "the buffer offset of the redraw is not a loop-carried variable"
-			}
+			first, step, okA := splitT(base)
+			want := polyAtom(z.defaultAtom(yPhi)).add(polyConst(1), -1).add(polyAtom("t.viewportY"), 1).mul(polyAtom("t.viewportWidth")).mul(polyConst(3))
 			if bad == "" {
-				want := polyAtom(z.defaultAtom(yPhi)).add(polyConst(1), -1).add(polyAtom("t.viewportY"), 1).mul(polyAtom("t.viewportWidth")).mul(polyConst(3))
-				okInit, okStep := false, false
-				for _, e := range oPhi.Edges {
-					pe := z.Of(e)
-					if pe.equal(polyAtom(name).add(polyConst(3), 1)) {
-						okStep = true
-					} else if pe.equal(want) {
-						okInit = true
-					} else {
-						bad = "unexpected offset update in the redraw: " + pe.String() + " (expected start " + want.String() + ", step +3)"
-					}
-				}
-				if bad == "" && (!okInit || !okStep) {
-					bad = "the redraw offset does not start at (y-1+viewportY)*viewportWidth*3 and advance by 3 per cell"
-				}
-				// offset advances together with x: same block
-				if bad == "" && oPhi.Block() != xPhi.Block() {
-					bad = "the offset and the column counter are not advanced by the same loop"
+				if k, isK := step.isConst(); !okA || !isK || k != 3 || !first.equal(want) {
+					bad = "the redraw offset does not start at (y-1+viewportY)*viewportWidth*3 and advance by 3 per cell: it is " + base.String()
 				}
 			}
+		}
+		if inLoop {
+			lf.Done()
 		}
 	}
 	if bad == "" {
